@@ -35,7 +35,9 @@ def counts(s):
 # ---- per-species data ------------------------------------------------------------------------------------------
 SPECIES = M.ELS + M.VARIANTS + ["He{4}", "H{1}", "H{2}", "H{3-1}", "O{16+2}", "Pb", "Au", "W", "Xe",
                                 # charges of two and more digits, with and without an isotope number
-                                "Fe{56-10}", "Fe{56+26}", "U{238-28}", "Xe{132+12}", "U{-92}", "Fe{+26}", "Pb{208+82}", "O{16-2}", "C{12+6}"]
+                                "Fe{56-10}", "Fe{56+26}", "U{238-28}", "Xe{132+12}", "U{-92}", "Fe{+26}", "Pb{208+82}", "O{16-2}", "C{12+6}",
+                                # elements whose symbol begins like the hydrogen aliases D and T, with every suffix form
+                                "Ti", "Ti{48}", "Th{232}", "Dy{164}", "Tl{-}", "Te{+2}", "Ta{181+3}", "Tb{159}", "Tm{+3}", "Tc{98}", "D{+}", "T{3-1}", "D{2}", "DT" if False else "D"]
 
 
 @contract(f"{EL}.__init__", ["C10"], name="Element.__init__")
@@ -251,6 +253,17 @@ for mode, label in (("NUMBER_FRACTION", "number"), ("MASS_FRACTION", "mass")):
                     m = b.new(MAT, " ".join(f"{p} <{s}>" for s, p in zip(mix, lit)), natural=nat, norm_type=norm)
                     return dict(args=[m], kwargs=dict(quantity=False), env=dict(ps=[float(p) for p in lit], ms=[_mass(s, nat) for s in mix], keys=list(mix)))
                 c.scenario("text:" + "+".join(mix) + ("" if nat else "[most-abundant-isotopes]"), pre_s)
+        # a mixture accumulated part by part with the augmented statement  total += part
+        for mix in [m for m in MIXES if len(m) >= 2][:2]:
+            def pre_acc(b, mix=mix):
+                ps = [b.real(f"p{i}") for i in range(len(mix))]
+                norm = b.getattr(b.cls(NORM), mode)
+                total = b.new(MAT, b.dict({mix[0]: ps[0]}), norm_type=norm)
+                for sname, p in list(zip(mix, ps))[1:]:
+                    total, exc = b.aug_catching("+", total, b.new(MAT, b.dict({sname: p}), norm_type=norm))
+                    b.assume(exc is None)
+                return dict(args=[total], kwargs=dict(quantity=False), env=dict(ps=ps, ms=[_mass(s, True) for s in mix], keys=list(mix)))
+            c.scenario("+".join(mix) + "[accumulated-with-augmented-sums]", pre_acc)
         # two materials written with the same text are two materials: extending one of them does not touch the other, nor one built afterwards
         for mix, lit in STRING_MIXES[:2]:
             for which in ("first", "built-afterwards"):
